@@ -663,3 +663,46 @@ def rule_own_hof(ctx: Ctx) -> None:
                              f"circuit", func=q, construct=f"{q}: hall of fame written outside update_hof")
     if n < 3:
         raise AnalysisError("own.hof: hall-of-fame writes not found (update_hof moved?)")
+
+
+
+# --------------------------------------------------------------------------- budget.emitter-cap (initial emission assignment)
+
+
+def rule_emitter_cap(ctx: Ctx) -> None:
+    """budget.emitter-cap: get_emission_assignment hands out emitter indices 0 .. n_emitter-1.  The index handed to a photon is either the
+    counter of emitters in use or a draw below it, so the counter must never pass n_emitter: every `counter = counter + 1` sits under
+    a condition that relates the counter to n_emitter (`counter < n_emitter`, or the balance `photons left == emitters left`).  An
+    unguarded increment lets the draw reach n_emitter, and CircuitDAG.add silently creates that extra emitter register."""
+    repo = ctx.repo
+    m = repo.module(EVO)
+    fn = repo.anchor(EVO, "EvolutionarySolver.get_emission_assignment")
+    ctx.touch(m, fn)
+    ps = func_params(fn)
+    ne = [p_ for p_ in ps if "emitter" in p_]
+    if not ne:
+        raise AnalysisError("get_emission_assignment: n_emitter parameter not found")
+    ne = ne[0]
+    incs = [a for a in ast.walk(fn) if (isinstance(a, ast.Assign) and len(a.targets) == 1 and isinstance(a.targets[0], ast.Name) and isinstance(a.value, ast.BinOp)
+                                          and isinstance(a.value.op, ast.Add) and norm(a.value.left) == a.targets[0].id and norm(a.value.right) == "1")
+            or (isinstance(a, ast.AugAssign) and isinstance(a.op, ast.Add) and isinstance(a.target, ast.Name) and norm(a.value) == "1")]
+    if not incs:
+        raise AnalysisError("get_emission_assignment: used-emitter counter increment not found")
+    for a in incs:
+        ctr = a.targets[0].id if isinstance(a, ast.Assign) else a.target.id
+        guarded = False
+        p_ = parent(a)
+        while p_ is not None and p_ is not fn:
+            if isinstance(p_, ast.If) and any(a is x for b_ in p_.body for x in ast.walk(b_)):
+                names = {x.id for x in ast.walk(p_.test) if isinstance(x, ast.Name)}
+                if ne in names and ctr in names:
+                    guarded = True
+            p_ = parent(p_)
+        if guarded:
+            ctx.ok("budget.emitter-cap", m, a, what=f"`{ctr}` grows only under a condition relating it to {ne}")
+        else:
+            ctx.fail("budget.emitter-cap", m, a,
+                     f"get_emission_assignment increments `{ctr}` without a condition relating it to `{ne}`: once every emitter is in use the "
+                     f"counter keeps growing, the next draw can return {ne} or more, and the initial circuit emits a photon from an emitter register "
+                     f"beyond the budget (CircuitDAG.add creates it silently, and it never gets a measure-and-reset)",
+                     func="EvolutionarySolver.get_emission_assignment", construct=f"get_emission_assignment: {ctr} incremented without a cap")
